@@ -290,6 +290,16 @@ impl<'a> G<'a> {
             } else {
                 self.emit(op);
             }
+        } else if r < 34 {
+            // ecs_iter_destroy! with a closure that returns plain EcsStep (Continue … Break at brk)
+            let mut op = format!("iterds q{}", q);
+            if self.rng.chance(70) {
+                op.push_str(&format!(" brk={}", self.rng.below(total + 2)));
+            }
+            if self.rng.chance(40) {
+                op.push_str(&format!(" add={}", 1 + self.rng.below(9)));
+            }
+            self.emit(op);
         } else if r < 55 {
             // iter_destroy with a decision list
             let n = total.min(40) + 1;
